@@ -128,6 +128,8 @@ theorem usesE_rn (hν : Adm ν) (bs : List Name) : ∀ e : Expr,
   | .record _ args => by simp only [rnE, usesE, usesEs_rn hν bs args]
   | .tuple args => by simp only [rnE, usesE, usesEs_rn hν bs args]
   | .enumRec _ _ args => by simp only [rnE, usesE, usesEs_rn hν bs args]
+  | .range args => by simp only [rnE, usesE, usesEs_rn hν bs args]
+  | .slice a idx => by simp only [rnE, usesE, usesE_rn hν bs a, usesEs_rn hν bs idx, List.map_append]
   | .lam (.mk id n ps r body cs) => by
     by_cases hn : n = ""
     · have := usesF_rn hν bs "" (.mk id n ps r body cs)
